@@ -55,6 +55,7 @@ type blockOp struct {
 	Export  string   `json:"export,omitempty"`  // C12: "asis" = export/import round trip after this block
 	Genesis string   `json:"genesis,omitempty"` // first op only: genesis variant the replicas are built from ("" = default)
 	Idle    int      `json:"idle,omitempty"`    // number of empty blocks (same time step) that follow this block
+	Start   int64    `json:"start,omitempty"`   // first op only: the chain's initial height (0 = 1)
 }
 
 // expandIdle turns a block followed by op.Idle empty blocks into the list of single blocks.
@@ -168,6 +169,12 @@ func (w *world) shapeClasses() []string {
 	add(w.farRandom > 0, "random-request-due-beyond-2^31")
 	return cl
 }
+
+// startHeights: a chain may start at any height (a restart from an exported genesis continues the old numbering):
+// mostly 1, sometimes shortly before the height's big-endian encoding rolls over a byte, two bytes or four bytes.
+var startHeights = []int64{1, 1, 1, 1, 215, 65500, 1<<32 - 40}
+
+func drawStart(t *rapid.T) int64 { return startHeights[rapid.IntRange(0, len(startHeights)-1).Draw(t, "start")] }
 
 func newWorld() *world {
 	return &world{modules: map[string]int{}, msgOK: map[string]int{}, msgFail: map[string]int{}}
